@@ -205,6 +205,14 @@ impl Trace for ListStr {
   }
 }
 
+/// Instantiate the error class with the message and raise the instance
+fn raise_error(hooks: &mut Hooks, error: Value, message: String) -> Call {
+  let message = val!(hooks.manage_str(message));
+  let instance = hooks.call(error, &[message])?;
+
+  Call::Err(LyError::Err(instance.to_obj().to_instance()))
+}
+
 fn quote_string(buf: &mut String, string: &str) {
   buf.push('\'');
   buf.push_str(string);
@@ -239,11 +247,10 @@ impl LyNative for ListStr {
           buf.push_str(", ");
         } else {
           // if error throw away temporary strings
-          return hooks.call(
+          return raise_error(
+            hooks,
             self.error,
-            &[val!(hooks.manage_str(format!(
-              "Expected type str from {item}.str()"
-            )))],
+            format!("Expected type str from {item}.str()"),
           );
         });
       }
@@ -260,12 +267,10 @@ impl LyNative for ListStr {
           buf.push_str(&string);
         } else {
           // if error throw away temporary strings
-          return hooks.call(
+          return raise_error(
+            hooks,
             self.error,
-            &[val!(hooks.manage_str(format!(
-              "Expected type str from {}.str()",
-              *last
-            )))],
+            format!("Expected type str from {}.str()", *last),
           );
         });
       })
